@@ -180,7 +180,7 @@ def decide(job):
         attempts.append((name, r1, round(secs, 3), reason))
         if r1 != "unknown":
             r, model, backend = r1, m1, name
-    attempt("z3", lambda: _z3_check(text, min(timeout_ms, 3000)))
+    attempt("z3", lambda: _z3_check(text, min(timeout_ms, 8000)))
     for tac in tactics or ():
         attempt("z3:" + tac, lambda: _z3_check(text, min(timeout_ms, 10000), tac))
     if timeout_ms > 3000:
